@@ -193,8 +193,8 @@ def has_zero_child(e):
 
 # ------------------------------------------------------------------------------------------ queries
 
-QKINDS = ["matmul_vec", "matmul_mat", "matmul_batched", "matmul_bcast", "rmatmul", "rmatvec", "tmatmul", "to_dense",
-          "t_to_dense", "size"]
+QKINDS = ["matmul_vec", "matmul_mat", "matmul_batched", "matmul_bcast", "rmatmul", "rmatvec", "tmatmul", "t_matmul_internal",
+          "to_dense", "t_to_dense", "size"]
 
 
 def make_queries(rng, e):
@@ -213,6 +213,9 @@ def make_queries(rng, e):
     # transposed operator times a matrix
     tb = rng.choice([[], batch])
     qs.append(("tmatmul", ob.rand_t(rng, list(tb) + [m, rng.choice([1, 2])])))
+    # the internal _t_matmul (reached publicly only below Root-like parents and in backward passes)
+    tb2 = rng.choice([[], batch])
+    qs.append(("t_matmul_internal", ob.rand_t(rng, list(tb2) + [m, rng.choice([1, 3])])))
     qs += [("to_dense", None), ("t_to_dense", None), ("size", None)]
     return qs
 
@@ -247,6 +250,11 @@ def run_query(op, kind, rhs, dtype):
             res, cls1 = densify(op.mT @ X)
             if cls1:
                 extra["returned"] = cls1
+        elif kind == "t_matmul_internal":
+            X = ob.tt(rhs, dtype)
+            res, cls1 = densify(op._t_matmul(X))
+            if cls1:
+                extra["returned"] = cls1
         elif kind == "to_dense":
             res = op.to_dense()
         elif kind == "t_to_dense":
@@ -274,7 +282,7 @@ def expected(D, kind, rhs, dtype):
         return torch.matmul(D, ob.tt(rhs, dtype))
     if kind in ("rmatmul", "rmatvec"):
         return torch.matmul(ob.tt(rhs, dtype), D)
-    if kind == "tmatmul":
+    if kind in ("tmatmul", "t_matmul_internal"):
         return torch.matmul(D.mT, ob.tt(rhs, dtype))
     if kind == "to_dense":
         return D
@@ -341,6 +349,8 @@ def query_lit(kind, rhs):
         return "QRmatvec %s" % bt_lit(ob.tt(rhs, torch.float64).unsqueeze(-1))
     if kind == "tmatmul":
         return "QTMatmul %s" % bt_lit(ob.tt(rhs, torch.float64))
+    if kind == "t_matmul_internal":
+        return "QTmmInternal %s" % bt_lit(ob.tt(rhs, torch.float64))
     return {"to_dense": "QToDense", "t_to_dense": "QTToDense", "size": "QSize"}[kind]
 
 
@@ -357,7 +367,7 @@ CHILDREN = ["Dense", "Diag", "ConstantDiag", "Identity", "Toeplitz", "Triangular
             "AddedDiag", "Masked", "KronDiag", "BatchRepeat", "Cat", "Interpolated", "Mul", "Zero", "PsdSum", "KronTriangular",
             "KronAddedDiag", "SumKron", "LowRankRootAddedDiag"]
 TAKES_CHILD = ["Kron", "Sum", "PsdSum", "Matmul", "ConstantMul", "BlockDiag", "BlockInterleaved", "SumBatch", "BatchRepeat", "Cat",
-               "Interpolated", "Masked", "AddedDiag", "KronAddedDiag"]
+               "Interpolated", "Masked", "AddedDiag", "KronAddedDiag", "Root"]
 
 
 def cells(quick):
@@ -396,7 +406,13 @@ def cells(quick):
 def gen_expr(rng, cell):
     cls, child, b, s, depth = cell
     m, n = SIZES[s]
-    e = ob.gen(rng, cls, batch=list(BKIND[b]), m=m, n=n, depth=depth, child=child)
+    if cls == "Root" and child is not None:
+        # RootLinearOperator over an OPERATOR root (opbuild.gen only makes tensor roots): R R^T with R of class `child`;
+        # this is the public path into the children's _t_matmul
+        root = ob.gen(rng, child, batch=list(BKIND[b]), m=m, n=n, depth=max(1, depth - 1))
+        e = {"cls": "Root", "root": root}
+    else:
+        e = ob.gen(rng, cls, batch=list(BKIND[b]), m=m, n=n, depth=depth, child=child)
     return sanitize(rng, e, cell)
 
 
@@ -433,6 +449,33 @@ def main_dtype(e):
     """Permutation operators are float32 by construction (no dtype argument): expressions containing one are
     compared in Coq through their float32 observations (exact: small integers)."""
     return torch.float32 if tree_classes(e) & {"Permutation", "TransposePermutation"} else torch.float64
+
+
+def valid(e):
+    """shape side conditions of the constructors that the library itself does not check (mirrors coq/C01/OpExpr.v wfb):
+    opbuild.gen occasionally nests a rectangular operator where the class documents a square one."""
+    try:
+        for k in kids_of(e):
+            if not valid(k):
+                return False
+        c = e["cls"]
+        shp = lambda x: ob.shape_of(x)[-2:]
+        if c in ("AddedDiag", "KronAddedDiag", "LowRankRootAddedDiag", "SumKron"):
+            a, b = kids_of(e)[0], kids_of(e)[1]
+            return shp(a) == shp(b) and shp(a)[0] == shp(a)[1]
+        if c in ("Sum", "PsdSum"):
+            return len({tuple(shp(x)) for x in e["ops"]}) == 1
+        if c == "Matmul":
+            return shp(e["l"])[1] == shp(e["r"])[0]
+        if c == "Mul":
+            return shp(e["l"]) == shp(e["r"])
+        if c == "BlockDiag":
+            return shp(e["base"])[0] == shp(e["base"])[1]
+        if c == "Masked":
+            return [len(e["row_mask"]["data"]), len(e["col_mask"]["data"])] == shp(e["base"])
+        return True
+    except Exception:
+        return False
 
 
 def numel_ok(e, limit=2500):
@@ -527,7 +570,7 @@ def shrink(e, kind, fk, dtype_tag):
 def observe_all(ctx, rng, cell_list):
     """build, query and judge.  returns list of case dicts"""
     cases = []
-    skipped = {"gen": 0, "build": 0, "size": 0, "inexpressible": 0}
+    skipped = {"gen": 0, "build": 0, "size": 0, "inexpressible": 0, "invalid": 0}
     for cell in cell_list:
         try:
             e = gen_expr(rng, cell)
@@ -536,6 +579,9 @@ def observe_all(ctx, rng, cell_list):
             continue
         if not numel_ok(e):
             skipped["size"] += 1
+            continue
+        if not valid(e):
+            skipped["invalid"] += 1      # generator artefact: arguments outside what the class documents
             continue
         try:
             lit = expr_lit(e)
